@@ -166,6 +166,7 @@ type Worker struct {
 
 	globals      map[*ssa.Global]*Value
 	iso          *isoState // non-nil while a vh.Isolated closure runs
+	pools        map[*Value][]Value // sync.Pool contents (retaining model), per path
 	lockDepth    int       // > 0 inside sync.Once.Do / between Lock and Unlock
 	cur          *frame
 	inited       map[*ssa.Package]bool
@@ -868,7 +869,7 @@ func (w *Worker) runPath(fn *ssa.Function, prefix []Decision) {
 	w.pathViol = 0
 	w.stubs = map[string]Value{}
 	w.undoOn = true
-	w.iso, w.lockDepth, w.cur = nil, 0, nil
+	w.iso, w.lockDepth, w.cur, w.pools = nil, 0, nil, nil
 	if w.S.Dead() {
 		w.S.Restart()
 	}
